@@ -18,6 +18,10 @@ Tie.
    central differences of residual(vect) on generated sub-images (prepare_subimage)
    for gauss/ring x 2-D/3-D x iso/anisotropic x random mode assignments x cluster
    layouts; and each d-function against central differences of its function.
+   Constant columns carry per-feature values, the background included: the
+   family 'constant background differing inside a cluster' (background='const',
+   a cluster of >= 2 features whose constant background values differ) checks
+   that both closures read the cluster's background level from the same place.
 """
 import os, sys, json, subprocess, hashlib, itertools, math
 import numpy as np
@@ -536,8 +540,64 @@ def gen_problem(rng, tier):
     if ndim == 3:
         radius = [min(r, 4) for r in radius]
     use_groups = ncl > 1 or rng.random() < 0.6
-    return dict(fit=fit, ndim=ndim, iso=iso, cluster_sizes=sizes, param_mode=pm, radius=radius, use_groups=use_groups,
-                norm=rng.choice([1.0, 1.0, 7.5, 1e-3]), seed=rng.randrange(1 << 30))
+    cfg = dict(fit=fit, ndim=ndim, iso=iso, cluster_sizes=sizes, param_mode=pm, radius=radius, use_groups=use_groups,
+               norm=rng.choice([1.0, 1.0, 7.5, 1e-3]), seed=rng.randrange(1 << 30))
+    if pm['background'] == 'const':
+        cfg['bg_style'] = rng.choice(BG_STYLES)
+    return cfg
+
+
+BG_STYLES = ['independent', 'wide', 'first differs', 'last differs', 'one differs', 'equal']
+
+
+def const_background(nprng, style, col, groups0):
+    """values of a constant (mode 'const') background column, per feature.
+    equal: one value per cluster; independent: every feature its own value in [0.5, 5); wide: its own value in
+    [0, 25) (as large as the signal / the image noise); first / last / one differs: the features of a cluster share
+    one value except its first / last / one random member (tells 'first row', 'last row', 'mean', 'min', 'max' of
+    the cluster's column apart)."""
+    col = np.array(col, dtype=float)
+    if style == 'independent':
+        return col
+    if style == 'wide':
+        return nprng.uniform(0, 25, len(col))
+    if style == 'equal':                 # no draws: replay files written before the styles existed stay reproducible
+        for g in groups0:
+            col[g] = col[g[0]]
+        return col
+    for g in groups0:
+        base = col[g[0]]
+        delta = nprng.uniform(0.8, 6.0)
+        other = base - delta if (nprng.random() < 0.5 and base - delta >= 0) else base + delta
+        col[g] = base
+        if len(g) >= 2:
+            if style == 'first differs':
+                col[g[0]] = other
+            elif style == 'last differs':
+                col[g[-1]] = other
+            elif style == 'one differs':
+                col[g[int(nprng.integers(0, len(g)))]] = other
+    return col
+
+
+def gen_problem_const_bg(rng, tier):
+    """family 'constant background differing inside a cluster': background held constant (param_mode
+    background='const', never the default), at least one cluster of >= 2 overlapping features, and the per-feature
+    constant values differ inside it; everything else (model, geometry, other modes, grouping, norm) as in gen_problem
+    but with at least one fitted non-background parameter so that the vector is not empty."""
+    cfg = gen_problem(rng, tier)
+    pm = cfg['param_mode']
+    pm['background'] = 'const'
+    sizes = cfg['cluster_sizes']
+    if max(sizes) < 2:
+        sizes[rng.randrange(len(sizes))] = rng.choice([2, 2, 3, 4])
+    coords = ['z', 'y', 'x'][-cfg['ndim']:]
+    pos_fitted = pm['pos'] != 'const' if 'pos' in pm else any(pm.get(c, 'var') != 'const' for c in coords)
+    other_fitted = any(v != 'const' for k, v in pm.items() if k not in ['background', 'pos'] + coords)
+    if not (pos_fitted or other_fitted):
+        pm['signal'] = rng.choice(MODES[1:])        # empty optimisation vector: nothing to differentiate
+    cfg['bg_style'] = rng.choice(BG_STYLES[:5])
+    return cfg
 
 
 def build_problem(cfg):
@@ -604,8 +664,9 @@ def build_problem(cfg):
             for g in groups0:
                 col[g] = col[g].mean() if name in ff.pos_columns else col[g[0]]
         if name == 'background' and m == 0:
-            for g in groups0:
-                col[g] = col[g[0]]
+            # a constant background is a per-feature column like every other constant (e.g. taken from a previous
+            # locate / estimate): inside one cluster the values may differ.  'equal' is the old behaviour.
+            col = const_background(nprng, cfg.get('bg_style', 'equal'), col, groups0)
         params[:, j] = col
     return ff, images, meshes, masks, params, groups, groups0
 
@@ -647,6 +708,11 @@ def _check_gradient(chk, cfg, ff, images, meshes, masks, params, groups, groups0
     chk.count(('gradient', json.dumps(cfg, sort_keys=True)), len(vect) >= 3)
     chk.tally('gradient %s %dD %s' % (cfg['fit'], ndim, 'iso' if cfg['iso'] else 'aniso'))
     chk.tally('gradient clusters=%d' % len(groups0))
+    if ff.modes[0] == 0:
+        bgcol = params[:, 0]
+        differs = any(len(g) >= 2 and np.ptp(bgcol[g]) > 0 for g in groups0)
+        chk.tally('gradient constant background: %s' % ('values differ inside a cluster (style %s)' % cfg.get('bg_style', 'equal')
+                                                        if differs else 'equal inside every cluster / only isolated features'))
     for name, m in zip(ff.params, ff.modes):
         chk.tally('gradient mode %s=%s' % ('pos' if name in ff.pos_columns else name.split('_')[0], MODES[m]))
     if len(vect) == 0:
@@ -713,6 +779,17 @@ GRAD_CORPUS = [
          radius=[3, 4, 3], use_groups=True, norm=1.0, seed=17),
     dict(fit='ring', ndim=2, iso=False, cluster_sizes=[3], param_mode=dict(signal='var', background='cluster', pos='var', size='var', thickness='cluster'),
          radius=[4, 5], use_groups=False, norm=1.0, seed=18),
+    # constant background whose per-feature values differ inside a cluster (background='const' is never the default)
+    dict(fit='gauss', ndim=2, iso=True, cluster_sizes=[2], param_mode=dict(signal='var', background='const', pos='var', size='var'),
+         radius=[4, 4], use_groups=True, norm=1.0, seed=19, bg_style='independent'),
+    dict(fit='gauss', ndim=2, iso=False, cluster_sizes=[1, 3], param_mode=dict(signal='cluster', background='const', pos='var', size='global'),
+         radius=[3, 5], use_groups=True, norm=7.5, seed=20, bg_style='last differs'),
+    dict(fit='ring', ndim=2, iso=True, cluster_sizes=[3], param_mode=dict(signal='var', background='const', pos='const', size='var', thickness='var'),
+         radius=[5, 5], use_groups=False, norm=1.0, seed=21, bg_style='first differs'),
+    dict(fit='ring', ndim=3, iso=False, cluster_sizes=[2, 2], param_mode=dict(signal='global', background='const', pos='var', size='cluster', thickness='const'),
+         radius=[3, 4, 4], use_groups=True, norm=1e-3, seed=22, bg_style='wide'),
+    dict(fit='gauss', ndim=3, iso=True, cluster_sizes=[4], param_mode=dict(signal='const', background='const', size='var'),
+         radius=[3, 3, 3], use_groups=True, norm=1.0, seed=23, bg_style='one differs'),
 ]
 
 
@@ -736,12 +813,20 @@ def run(chk):
         ng *= 2      # proof/translation broken: search harder for the concrete failing vector
     for _ in range(ng):
         check_gradient(chk, gen_problem(rng, chk.tier))
+    for _ in range(ng // 3):
+        chk.tally('gradient family: constant background differing inside a cluster (generated)')
+        check_gradient(chk, gen_problem_const_bg(rng, chk.tier), 'const-bg')
     chk.coverage['rule'] = (
         "packing: corpus + every mode vector over {const,var,global,cluster} for n_vars<=3 (quick) / <=5 (thorough), sampled 4-5 column vectors and custom "
         "group modes 4/5, x random partitions of 1-6 rows x operation in {None,sum,min,max} x consistent/arbitrary integer arrays; 20% malformed stream "
         "(groups missing/empty/overlapping/out of range/not covering, short/long vectors, zero rows); non-trivial = >=2 columns with a global/group mode. "
         "gradient: corpus + random (model in gauss/ring, 2-D/3-D, iso/anisotropic, 1-3 clusters of 1-3 overlapping features, random mode per parameter, "
-        "norm) sub-images cut by prepare_subimage from a random image; jacobian vs central differences (h=1e-5) of residual in every component; "
+        "norm) sub-images cut by prepare_subimage from a random image; constant (mode const) columns, the background included, carry per-feature "
+        "values; family 'constant background differing inside a cluster' (1/3 of the random stream again, + 5 corpus entries): background='const', "
+        ">= 1 cluster of 2-4 overlapping features, the features' constant background values drawn in the styles independent [0.5,5) / wide [0,25) / "
+        "all equal but the first / the last / one random member of each cluster (distinguishes first-row, last-row, mean, min, max readings of the "
+        "cluster's column by the two closures), at least one fitted non-background parameter, groups given or None; in the general stream a const "
+        "background takes one of these styles or 'equal' uniformly (tallied as 'gradient constant background: ...'); jacobian vs central differences (h=1e-5) of residual in every component; "
         "non-trivial = optimisation vector with >= 3 components; plus each d-function vs central differences of its function at random points. "
         "distinct by content hash")
     chk.assumptions += [
